@@ -33,6 +33,17 @@ func sideName(left bool) string {
 func (c *c13ctx) write(s string, n int, pad byte, left bool) {
 	r := c.e.R
 	var b bytes.Buffer
+	switch c.writes % 3 {
+	case 1:
+		// a reused buffer: its spare capacity still holds the bytes of an earlier, longer message
+		b.Write(bytes.Repeat([]byte{0xEE}, n+len(s)+40))
+		b.Reset()
+	case 2:
+		// partly consumed buffer with garbage in the spare capacity
+		back := bytes.Repeat([]byte{0xDD}, n+64)
+		b = *bytes.NewBuffer(back[:8:len(back)])
+		b.Next(8)
+	}
 	b.WriteString("P")
 	err, p := mon.Call(func() error { return codec.WriteFixedStringWithPadding(&b, s, n, rune(pad), left) })
 	c.writes++
@@ -80,7 +91,7 @@ func (c *c13ctx) read(w []byte, pad byte, left bool) {
 func c13(e *Env) {
 	r := e.R
 	r.Rule("exhaustive small scope: width N in 0..3 × all 256 pad bytes × both pad sides × every text of length <= N+1 over the alphabet {pad, 'a', 0x00, 0xC2, 0x80} for writes and every N-byte wire string over it for reads; random: N in 0..300 ∪ {4096, 65536}, random pad byte, texts of length 0..N+8 biased to all-pad, pad at both ends, multi-byte UTF-8 cut mid-sequence; the default wrappers (space, right) and the list variants per element; message level: every fixed-width text field of every one of the 170 message types, read by the message's own decoder from token-level wire images (arbitrary pad placement, interior and trailing NUL/space) and written by its encoder from over-long / short / pad-terminated texts. distinct_nontrivial = writes where the text is neither empty nor exactly N bytes + reads where stripping removed at least one byte")
-	r.Explain("Oracle: an independent 10-line model — write(s,N,p,side) = s[:N] if len(s) >= N else s padded with p on the pad side; read(w,p,side) = w with leading (left) or trailing (right) bytes equal to p removed and nothing else. Checked: exactly N bytes appended (bytes before untouched), appended == model, reader returns model and consumes exactly N bytes.")
+	r.Explain("Oracle: an independent 10-line model — write(s,N,p,side) = s[:N] if len(s) >= N else s padded with p on the pad side; read(w,p,side) = w with leading (left) or trailing (right) bytes equal to p removed and nothing else. Writes go alternately into a fresh buffer, a Reset() buffer whose spare capacity still holds 0xEE bytes of an earlier message, and a drained buffer over a garbage-filled array. Checked: exactly N bytes appended (bytes before untouched), appended == model, reader returns model and consumes exactly N bytes.")
 	r.Assume("pad characters above 0xFF are outside 'pad byte' and are not generated")
 	c := &c13ctx{e: e}
 	// ---- exhaustive small scope
